@@ -119,3 +119,83 @@ func subtractCompareLint(p *core.Program, r *core.Report, rule string, relPkgs [
 		fileProbs(r, rule, core.FuncName(fi.Obj), p.Pos(fi.Decl.Pos()), probs, "no order is computed as an overflowing difference")
 	}
 }
+
+// swappedArgsLint: a call that passes two of its own variables in each other's place — the argument in
+// position i is a variable named like parameter j of the callee and the argument in position j is
+// named like parameter i (same types, so the compiler is silent): getAlphaMM(m, log2m) for
+// func getAlphaMM(log2m, m). One obligation per function that makes such-shaped calls (two or more
+// identifier arguments matching parameter names of a callee of this module).
+func swappedArgsLint(p *core.Program, r *core.Report, rule string, relPkgs []string) {
+	in := map[string]bool{}
+	for _, k := range relPkgs {
+		in[k] = true
+	}
+	for _, fi := range p.Funcs {
+		if !in[core.RelPkg(fi.Pkg.PkgPath)] || fi.Decl.Body == nil {
+			continue
+		}
+		info := fi.Pkg.TypesInfo
+		n := 0
+		var probs []string
+		ast.Inspect(fi.Decl.Body, func(m ast.Node) bool {
+			call, ok := m.(*ast.CallExpr)
+			if !ok || len(call.Args) < 2 {
+				return true
+			}
+			fn := calleeFunc(info, call)
+			if fn == nil {
+				return true
+			}
+			cfi := p.FuncOf(fn)
+			if cfi == nil || cfi.Decl.Type.Params == nil {
+				return true
+			}
+			var pnames []string
+			var ptypes []types.Type
+			for _, f := range cfi.Decl.Type.Params.List {
+				for _, nm := range f.Names {
+					pnames = append(pnames, nm.Name)
+					ptypes = append(ptypes, cfi.Pkg.TypesInfo.TypeOf(f.Type))
+				}
+			}
+			if len(pnames) != len(call.Args) {
+				return true
+			}
+			argName := func(e ast.Expr) string {
+				e = stripConvs(info, e)
+				switch v := ast.Unparen(e).(type) {
+				case *ast.Ident:
+					return v.Name
+				case *ast.SelectorExpr:
+					return v.Sel.Name
+				}
+				return ""
+			}
+			matched := 0
+			for i, a := range call.Args {
+				if an := argName(a); an != "" && an == pnames[i] {
+					matched++
+				}
+			}
+			for i := range call.Args {
+				for j := i + 1; j < len(call.Args); j++ {
+					ai, aj := argName(call.Args[i]), argName(call.Args[j])
+					if ai == "" || aj == "" || ai == aj || pnames[i] == pnames[j] {
+						continue
+					}
+					oneSided := (ai == pnames[j] && aj != pnames[j] && ai != pnames[i]) || (aj == pnames[i] && ai != pnames[i] && aj != pnames[j])
+					if (ai == pnames[j] && aj == pnames[i] || oneSided) && types.Identical(ptypes[i], ptypes[j]) {
+						probs = append(probs, fmt.Sprintf("%s: %s is called with `%s` for parameter %s and `%s` for parameter %s: the two arguments are in each other's place", p.Pos(call.Pos()), fn.Name(), types.ExprString(call.Args[i]), pnames[i], types.ExprString(call.Args[j]), pnames[j]))
+					}
+				}
+			}
+			if matched >= 2 {
+				n++
+			}
+			return true
+		})
+		if n > 0 || len(probs) > 0 {
+			fileProbs(r, rule, core.FuncName(fi.Obj), p.Pos(fi.Decl.Pos()), uniq(probs), fmt.Sprintf("%d call(s) pass same-named variables in parameter order", n))
+		}
+	}
+}
